@@ -148,26 +148,28 @@ theorem width_replicate (k : Nat) (c : Char) (hc : c ≠ '\t') : width (List.rep
     simp only [Bool.false_eq_true, if_false]
     omega
 
-/-! ### the `#pragma once` state machine: the empty-line rule cannot fire -/
+/-! ### the `#pragma once` state machine -/
 
-/-- invariant: the rule is not armed, and while it is still undecided no empty line has been recorded
-    and `#pragma once` has not been seen -/
-def PragmaInv (s : PragmaState) : Prop :=
-  s.reportEmptyLine ≠ some true ∧ (s.reportEmptyLine = none → s.emptyLineNumber = 0 ∧ s.gotPragmaOnce ≠ some true)
-
-theorem startsWith_hash_of_pragma : startsWith "#pragma once".toList "#" = true := by decide
+theorem stateAfter_append (v : Validator σ) : ∀ (xs ys : List Str) (s : σ) (n : Nat),
+    stateAfter v s n (xs ++ ys) = stateAfter v (stateAfter v s n xs) (n + xs.length) ys
+  | [], ys, s, n => by simp [stateAfter]
+  | x :: xs, ys, s, n => by
+    simp only [List.cons_append, stateAfter, stateAfter_append v xs ys, List.length_cons]
+    congr 1
+    omega
 
 theorem pragmaOrdinary_report (s : PragmaState) (n : Nat) (l : Str) :
     (pragmaOrdinary s n l).reportEmptyLine =
       if s.reportEmptyLine = none then
         (if startsWith l "#include" = true then some (decide (0 < s.emptyLineNumber))
-         else if startsWith l "#" = true then some false else none)
+         else if startsWith l "#" = true ∧ s.gotPragmaOnce ≠ none then some false else none)
       else s.reportEmptyLine := by
   unfold pragmaOrdinary
   by_cases hr : s.reportEmptyLine = none <;> by_cases hi : startsWith l "#include" = true <;>
-    by_cases hh : startsWith l "#" = true <;> simp only [hr, hi, hh, and_self, and_true, and_false, false_and, true_and,
-      if_true, if_false, reduceCtorEq, Bool.false_eq_true] <;>
-    (split <;> split <;> simp_all)
+    by_cases hh : startsWith l "#" = true <;> by_cases hg : s.gotPragmaOnce = none <;>
+    simp only [hr, hi, hh, hg, ne_eq, not_true_eq_false, not_false_eq_true, and_self, and_true, and_false, false_and,
+      true_and, if_true, if_false, reduceCtorEq, Bool.false_eq_true] <;>
+    ((repeat' split) <;> simp_all)
 
 theorem pragmaOrdinary_empty (s : PragmaState) (n : Nat) (l : Str) :
     (pragmaOrdinary s n l).emptyLineNumber =
@@ -175,9 +177,9 @@ theorem pragmaOrdinary_empty (s : PragmaState) (n : Nat) (l : Str) :
   unfold pragmaOrdinary
   by_cases hg : s.gotPragmaOnce = some true ∧ l.isEmpty = true
   · simp only [hg, and_self, if_true]
-    split <;> split <;> split <;> simp_all
+    (repeat' split) <;> simp_all
   · simp only [hg, if_false]
-    split <;> split <;> split <;> simp_all
+    (repeat' split) <;> simp_all
 
 theorem pragmaOrdinary_got (s : PragmaState) (n : Nat) (l : Str) :
     (pragmaOrdinary s n l).gotPragmaOnce =
@@ -185,44 +187,27 @@ theorem pragmaOrdinary_got (s : PragmaState) (n : Nat) (l : Str) :
   unfold pragmaOrdinary
   by_cases hg : s.gotPragmaOnce = none
   · simp only [hg, if_true]
-    split <;> split <;> split <;> simp_all
+    (repeat' split) <;> simp_all
   · simp only [hg, if_false]
-    split <;> split <;> split <;> simp_all
+    (repeat' split) <;> simp_all
 
-theorem pragmaOrdinary_inv (s : PragmaState) (n : Nat) (l : Str) (h : PragmaInv s) : PragmaInv (pragmaOrdinary s n l) := by
-  obtain ⟨h1, h2⟩ := h
-  unfold PragmaInv
-  rw [pragmaOrdinary_report, pragmaOrdinary_empty, pragmaOrdinary_got]
-  generalize hd : decide (l = "#pragma once".toList) = dl
-  by_cases hr : s.reportEmptyLine = none
-  · obtain ⟨he, hg⟩ := h2 hr
-    have hg' : ¬ (s.gotPragmaOnce = some true ∧ l.isEmpty = true) := fun hx => hg hx.1
-    rw [if_pos hr, if_neg hg', he]
-    by_cases hi : startsWith l "#include" = true
-    · rw [if_pos hi]
-      exact ⟨by simp, fun hx => by simp at hx⟩
-    · rw [if_neg hi]
-      by_cases hh : startsWith l "#" = true
-      · rw [if_pos hh]
-        exact ⟨by simp, fun hx => by simp at hx⟩
-      · rw [if_neg hh]
-        refine ⟨by simp, fun _ => ⟨rfl, ?_⟩⟩
-        by_cases hgn : s.gotPragmaOnce = none
-        · rw [if_pos hgn]
-          intro hx
-          have hdl : dl = true := by simpa using hx
-          rw [hdl] at hd
-          have hl : l = "#pragma once".toList := of_decide_eq_true hd
-          exact hh (by rw [hl]; exact startsWith_hash_of_pragma)
-        · rw [if_neg hgn]; exact hg
-  · rw [if_neg hr]
-    exact ⟨h1, fun hx => absurd hx hr⟩
+theorem pragmaOrdinary_inside (s : PragmaState) (n : Nat) (l : Str) :
+    (pragmaOrdinary s n l).insideComment = s.insideComment := by
+  unfold pragmaOrdinary
+  simp only
+  (repeat' split) <;> rfl
 
-theorem pragmaCheck_inv (s : PragmaState) (n : Nat) (l : Str) (h : PragmaInv s) : PragmaInv (pragmaCheck s n l) := by
-  have hstart : PragmaInv (if startsWith l "/**" = true then { s with insideComment := 1, gotLicense := true } else s) := by
-    split
-    · exact h
-    · exact h
+/-- once the notice is over, a line that does not open a comment goes through the ordinary part -/
+theorem pragmaCheck_ordinary (s : PragmaState) (n : Nat) (l : Str) (hl : startsWith l "/**" = false)
+    (hs : s.insideComment = 3) : pragmaCheck s n l = pragmaOrdinary s n l := by
+  unfold pragmaCheck
+  simp [hl, hs]
+
+/-- the decision about the empty-line rule is taken once -/
+theorem pragmaCheck_report_some (s : PragmaState) (n : Nat) (l : Str) (b : Bool) (h : s.reportEmptyLine = some b) :
+    (pragmaCheck s n l).reportEmptyLine = some b := by
+  have hstart : (if startsWith l "/**" = true then { s with insideComment := 1, gotLicense := true } else s).reportEmptyLine = some b := by
+    split <;> exact h
   unfold pragmaCheck
   simp only
   generalize (if startsWith l "/**" = true then { s with insideComment := 1, gotLicense := true } else s) = s' at hstart
@@ -230,12 +215,25 @@ theorem pragmaCheck_inv (s : PragmaState) (n : Nat) (l : Str) (h : PragmaInv s) 
   · split <;> exact hstart
   · split
     · exact hstart
-    · exact pragmaOrdinary_inv s' n l hstart
+    · rw [pragmaOrdinary_report, hstart]; simp
 
-theorem pragma_stateAfter_inv (isHeader : Bool) : ∀ (ls : List Str) (s : PragmaState) (n : Nat),
-    PragmaInv s → PragmaInv (stateAfter (pragmaOnce isHeader) s n ls)
-  | [], s, _, h => h
-  | l :: ls, s, n, h => pragma_stateAfter_inv isHeader ls _ (n + 1) (pragmaCheck_inv s n l h)
+theorem pragma_stateAfter_report_some (isHeader : Bool) (b : Bool) : ∀ (ls : List Str) (s : PragmaState) (n : Nat),
+    s.reportEmptyLine = some b → (stateAfter (pragmaOnce isHeader) s n ls).reportEmptyLine = some b
+  | [], _, _, h => h
+  | l :: ls, s, n, h => pragma_stateAfter_report_some isHeader b ls _ (n + 1) (pragmaCheck_report_some s n l b h)
+
+theorem not_comment_of_include (l : Str) (h : startsWith l "#include" = true) : startsWith l "/**" = false := by
+  unfold startsWith at *
+  cases l with
+  | nil => simp at h
+  | cons c t =>
+    have hc : c = '#' := by
+      have := List.isPrefixOf_iff_prefix.mp h
+      obtain ⟨r, hr⟩ := this
+      simp at hr
+      exact hr.1.symm
+    subst hc
+    rfl
 
 theorem pragma_checkReports_nil (isHeader : Bool) : ∀ (ls : List Str) (s : PragmaState) (n : Nat),
     checkReports (pragmaOnce isHeader) s n ls = []
